@@ -144,6 +144,28 @@ func (w *world) check(r *sched.Run) (string, *explore.Violation) {
 				if err != nil || !resp.GetBootstrapped() {
 					return "", &explore.Violation{Key: "is-bootstrapped", Msg: fmt.Sprintf("IsBootstrapped on leader %d says false after a successful bootstrap (%v)", s.ID, err)}
 				}
+				// the cluster keeps its identity: a cluster configuration carrying another cluster
+				// id (in the header or in the body) is refused and the stored meta stays as it is
+				metaKey := srvh.Root + "/raft"
+				stored, _ := w.st.Get(metaKey)
+				for _, id := range []uint64{0, 1, srvh.ClusterID + 1, srvh.ClusterID - 1} {
+					for _, inBody := range []bool{true, false} {
+						req := &pdpb.PutClusterConfigRequest{Header: s.Header(), Cluster: &metapb.Cluster{Id: srvh.ClusterID, MaxPeerCount: 5}}
+						where := "header"
+						if inBody {
+							req.Cluster.Id, where = id, "body"
+						} else {
+							req.Header = &pdpb.RequestHeader{ClusterId: id}
+						}
+						resp, err := s.PutClusterConfig(context.Background(), req)
+						if err == nil && resp.GetHeader().GetError() == nil {
+							return "", &explore.Violation{Key: "foreign-cluster-id-accepted", Msg: fmt.Sprintf("PutClusterConfig carrying cluster id %d in its %s was accepted (the cluster's id is %d)", id, where, srvh.ClusterID)}
+						}
+						if now, _ := w.st.Get(metaKey); now != stored {
+							return "", &explore.Violation{Key: "refused-but-changed", Msg: fmt.Sprintf("a refused PutClusterConfig (cluster id %d in its %s) changed the stored cluster meta", id, where)}
+						}
+					}
+				}
 			}
 		}
 	} else if len(keys) != 0 {
